@@ -252,6 +252,9 @@ package slice
 //@+     && (forall j int, x int, y int :: {tab[j][x], tab[j][y]} 0 <= j && j <= len(Y) && 0 <= x && y == x + 1 && y <= len(X) && cellDone(j, y, J, I) ==> tab[j][x] <= tab[j][y] && tab[j][y] <= tab[j][x] + 1)
 //@+     && (forall j int, k int, x int :: {tab[j][x], tab[k][x]} 0 <= j && k == j + 1 && k <= len(Y) && 0 <= x && x <= len(X) && cellDone(k, x, J, I) ==> tab[j][x] <= tab[k][x] && tab[k][x] <= tab[j][x] + 1)
 //@+     && (forall j int, k int, x int, y int :: {tab[j][x], tab[k][y]} 0 <= j && k == j + 1 && k <= len(Y) && 0 <= x && y == x + 1 && y <= len(X) && cellDone(k, y, J, I) && eqv(eq, X[x], Y[j]) ==> tab[k][y] >= tab[j][x] + 1)
+// tabDiag: when the two inputs are equal element by element, the diagonal cell (t, t) is worth at least t (every step
+// along the diagonal is a match), so the optimum in the last cell is the whole length.
+//@ lemma tabDiag(tab imap[imap[int]], X Slice, Y Slice, eq func(T, T) bool) by induction on t with tab[t - 1][t - 1], tab[t][t]: tabOK(tab, X, Y, eq) && len(X) == len(Y) && (forall s int :: {X[s]} 0 <= s && s < len(X) ==> eqv(eq, X[s], Y[s])) ==> forall t int :: {tab[t][t]} 0 <= t && t <= len(X) ==> tab[t][t] >= t
 //@ pred tabOK(tab imap[imap[int]], X Slice, Y Slice, eq func(T, T) bool) := tabUpTo(tab, X, Y, eq, len(Y) + 1, 0)
 //@
 //@ byref seq
@@ -265,7 +268,7 @@ package slice
 //@   ensures [C11,C12,C13] inputs: unchanged(elems(as)) && unchanged(elems(bs)) && (len(result) > 0 ==> fresh(result))
 //@   ghostret nodes set[ref], u imap[int], v imap[int]
 //@   ghostret tab imap[imap[int]], zrow imap[int]
-//@   ensures [C12] optimal: len(as) > 0 && len(bs) > 0 ==> (len(bs) >= len(as) ==> tabOK(tab, as, bs, eq) && len(result) == tab[len(bs)][len(as)]) && (len(bs) < len(as) ==> tabOK(tab, bs, as, eq) && len(result) == tab[len(as)][len(bs)])
+//@   ensures [C11,C12] optimal: len(as) > 0 && len(bs) > 0 ==> (len(bs) >= len(as) ==> tabOK(tab, as, bs, eq) && len(result) == tab[len(bs)][len(as)]) && (len(bs) < len(as) ==> tabOK(tab, bs, as, eq) && len(result) == tab[len(as)][len(bs)])
 //@   at after "var zero seq": ghost zrow = lambda k int :: 0
 //@   at after "var zero seq": ghost tab[0] = zrow
 //@   at loop 2 head: ghost tab[j] = upd(tab[j], 0, 0)
@@ -345,6 +348,14 @@ package slice
 //@   ensures [C11] script: len(result) > 0 ==> scriptOK(result, lhs, rhs, eq, lp, rp) && lp[len(result)] == len(lhs) && rp[len(result)] == len(rhs)
 //@   ensures [C11] same: len(result) == 0 ==> len(lhs) == len(rhs) && forall t int :: {lhs[t]} 0 <= t && t < len(lhs) ==> eqv(eq, lhs[t], rhs[t])
 //@   ensures [C11] inputs: unchanged(elems(lhs)) && unchanged(elems(rhs))
+//@   ensures [C11] equal: len(lhs) == len(rhs) && (forall t int :: {lhs[t]} 0 <= t && t < len(lhs) ==> eqv(eq, lhs[t], rhs[t])) ==> len(result) == 0
+//@   at after "lcs := LCSFunc(lhs, rhs, eq)": ghost same = len(lhs) == len(rhs) && (forall t int :: {lhs[t]} 0 <= t && t < len(lhs) ==> eqv(eq, lhs[t], rhs[t]))
+//@   at after "lcs := LCSFunc(lhs, rhs, eq)": apply [C11] tabDiag(LCSFunc_tab, lhs, rhs, eq)
+//@   at after "lcs := LCSFunc(lhs, rhs, eq)": assert [C11] same && len(lhs) > 0 ==> len(lcs) == len(lhs) && LCSFunc_wa[0] == 0 && LCSFunc_wa[len(lcs) - 1] == len(lhs) - 1 && LCSFunc_wb[0] == 0 && LCSFunc_wb[len(lcs) - 1] == len(rhs) - 1
+//@   at after "lcs := LCSFunc(lhs, rhs, eq)": assert [C11] same ==> forall k int :: {LCSFunc_wa[k]} {LCSFunc_wb[k]} 0 <= k && k < len(lcs) ==> LCSFunc_wa[k] == k && LCSFunc_wb[k] == k
+//@   loop 1: invariant [C11] whole: same ==> (i == 0 && len(out) == 0 && lpos == 0 && rpos == 0) || (i == len(lcs) && len(out) == 1 && out[0].Op == OpEmit && lpos == len(lhs) && rpos == len(rhs))
+//@   loop 2: invariant [C11] whole: same ==> lend == lpos
+//@   loop 3: invariant [C11] whole: same ==> rend == rpos
 //@   ensures [C11] alternate: altOK(result)
 //@   ensures [C11] kept: len(result) > 0 ==> keptOK(result, es) && es[len(result)] == L
 //@   ensures [C11] common: L >= 0 && (forall k int :: {cw[k]} {cv[k]} 0 <= k && k < L ==> 0 <= cw[k] && cw[k] < len(lhs) && 0 <= cv[k] && cv[k] < len(rhs) && eqv(eq, lhs[cw[k]], rhs[cv[k]])) && (forall a int, b int :: {cw[a], cw[b]} {cv[a], cv[b]} 0 <= a && a <= b && b < L ==> cw[b] - cw[a] >= b - a && cv[b] - cv[a] >= b - a)
@@ -441,8 +452,11 @@ package slice
 //@   ensures [C12] common: forall k int :: {result[k]} 0 <= k && k < len(result) ==> 0 <= wa[k] && wa[k] < len(as) && 0 <= wb[k] && wb[k] < len(bs) && eqv(equal, as[wa[k]], result[k]) && eqv(equal, bs[wb[k]], result[k])
 //@   ensures [C12] ascending: forall a int, b int :: {wa[a], wa[b]} {wb[a], wb[b]} 0 <= a && a <= b && b < len(result) ==> wa[b] - wa[a] >= b - a && wb[b] - wb[a] >= b - a
 //@   ensures [C12] inputs: unchanged(elems(as)) && unchanged(elems(bs))
+//@   ghostret tab imap[imap[int]]
+//@   ensures [C12] optimal: len(as) > 0 && len(bs) > 0 ==> (len(bs) >= len(as) ==> tabOK(tab, as, bs, equal) && len(result) == tab[len(bs)][len(as)]) && (len(bs) < len(as) ==> tabOK(tab, bs, as, equal) && len(result) == tab[len(as)][len(bs)])
 //@   at exit: ghost wa = LCSFunc_wa
 //@   at exit: ghost wb = LCSFunc_wb
+//@   at exit: ghost tab = LCSFunc_tab
 //@
 // govcTabMono and govcLCSBound are lemma functions: ordinary Go, compiled only under the build tag, whose loops are
 // the inductions. For ANY table that satisfies tabOK — the very predicate LCSFunc proves for its ghost table —
